@@ -85,7 +85,6 @@ func Run(run *vh.Run) {
 		"negligible-probability events (IL >= n in BIP-32, a random (r,s) being a valid signature, Keccak collisions) do not occur",
 		"the recovery byte v, the (r, n-s) twin and fee granter / fee payer / timeout height / tip are not key-or-message binding resp. not fields listed by the property: measured and reported, never counted as violations",
 		"perturbed documents the encoder refuses (extra fields, several signers, unsupported body fields, invalid chain id) have no EIP-712 rendering; for them only 'the signature must not verify' is asserted",
-		"the cgo secp256k1 code was not run under the address sanitizer (optional -asan leg not implemented)",
 	)
 	if u := uncoveredFields(); len(u) > 0 {
 		run.Set("message_fields_without_mutator", u)
@@ -127,6 +126,9 @@ func Run(run *vh.Run) {
 	parallel(nDocs, de.checkDoc)
 	runE2E(run, c, e2eAccts, nE2E)
 	bg.Wait()
+	if run.OnlyCase == "" || run.OnlyCase == "asan" {
+		asanLeg(run)
+	}
 
 	if run.OnlyCase != "" {
 		return
